@@ -70,15 +70,37 @@ fn first_diff(a: &str, b: &str) -> String {
     format!("std has {} lines, alloc-only has {}", a.lines().count(), b.lines().count())
 }
 
-fn history_frames(s: &Scenario) -> (Vec<Vec<u8>>, (f64, f64), f64) {
+/// frames of a scenario + the time (in seconds) that passes before each frame in the std build
+fn history_frames(s: &Scenario) -> (Vec<Vec<u8>>, (f64, f64), f64, Vec<u64>) {
     let mut world = tracker::World::new(s);
     let mut frames = vec![];
+    let mut waits = vec![];
+    let mut pending = 0u64;
     for op in &s.ops {
+        if let tracker::Op::Advance { half_s } = op {
+            pending += *half_s as u64 * 20; // up to ~4 minutes
+            continue;
+        }
         if let Some(b) = tracker::build(&mut world, op) {
             frames.push(b.bytes);
+            waits.push(pending);
+            pending = 0;
         }
     }
-    (frames, world.rx, world.range)
+    (frames, world.rx, world.range, waits)
+}
+
+/// std side: let `waits[i]` seconds pass for every tracked aircraft before frame i
+fn std_transcript(frames: &[Vec<u8>], rx: (f64, f64), range: f64, waits: &[u64]) -> String {
+    transcript::history_transcript_with(frames, rx, range, &mut |p: &mut Airplanes, i: usize| {
+        let w = waits.get(i).copied().unwrap_or(0);
+        if w > 0 {
+            let keys: Vec<_> = p.keys().copied().collect();
+            for k in keys {
+                p.verif_backdate(k, std::time::Duration::from_secs(w));
+            }
+        }
+    })
 }
 
 fn history_req(frames: &[Vec<u8>], rx: (f64, f64), range: f64) -> String {
@@ -161,7 +183,8 @@ pub fn replay_c20(v: &Value) -> Vec<Failure> {
             let frames: Vec<Vec<u8>> = v.get("frames").and_then(|x| x.as_array()).map(|a| a.iter().filter_map(|h| h.as_str().and_then(bits::unhex)).collect()).unwrap_or_default();
             let rx = (v["rx_lat"].as_f64().unwrap_or(0.0), v["rx_lon"].as_f64().unwrap_or(0.0));
             let range = v["range"].as_f64().unwrap_or(0.0);
-            let a = transcript::history_transcript(&frames, rx, range);
+            let waits: Vec<u64> = v.get("waits_s").and_then(|x| x.as_array()).map(|a| a.iter().map(|x| x.as_u64().unwrap_or(0)).collect()).unwrap_or_default();
+            let a = std_transcript(&frames, rx, range, &waits);
             let r = w.ask(&[history_req(&frames, rx, range)]);
             if norm(&r[0]) != norm(&a) {
                 out.push(Failure { sig: "C20/history_differs".into(), msg: first_diff(&a, &r[0]), replay: v.clone() });
@@ -234,12 +257,12 @@ pub fn run_c20(ctx: &Ctx) -> ! {
             done += batch as u64;
         }
         // ---- tracker histories (no time ops: the alloc-only build has no clock)
-        let strat = tracker::scenario_s(40, false);
+        let strat = tracker::scenario_s(40, true);
         let mut runner = TestRunner::new(Config { cases: nhist / WORKERS as u32, failure_persistence: None, rng_seed: RngSeed::Fixed(ctx.seed ^ (0x2000 + w as u64)), max_shrink_iters: 1500, ..Config::default() });
         let cell = std::cell::RefCell::new((worker, Stats::default(), true));
         let res = runner.run(&strat, |s| {
-            let (frames, rx, range) = history_frames(&s);
-            let mine = transcript::history_transcript(&frames, rx, range);
+            let (frames, rx, range, waits) = history_frames(&s);
+            let mine = std_transcript(&frames, rx, range, &waits);
             let mut c = cell.borrow_mut();
             let theirs = c.0.ask(&[history_req(&frames, rx, range)]).pop().unwrap_or_default();
             if c.2 {
@@ -268,15 +291,15 @@ pub fn run_c20(ctx: &Ctx) -> ! {
         st.merge(l);
         if let Err(TestError::Fail(reason, s)) = res {
             let sig = reason.message().to_string();
-            let (frames, rx, range) = history_frames(&s);
+            let (frames, rx, range, waits) = history_frames(&s);
             let msg = if sig == "C20/serde_tracker" {
                 serde_tracker(&frames, rx, range).unwrap_or_default()
             } else {
-                let mine = transcript::history_transcript(&frames, rx, range);
+                let mine = std_transcript(&frames, rx, range, &waits);
                 let theirs = worker.ask(&[history_req(&frames, rx, range)]).pop().unwrap_or_default();
                 first_diff(&mine, &theirs)
             };
-            st.fail(Failure { sig, msg: format!("{msg}; frames {:?}", frames.iter().map(|f| bits::hex(f)).collect::<Vec<_>>()), replay: json!({"kind":"history","frames":frames.iter().map(|f| bits::hex(f)).collect::<Vec<_>>(),"rx_lat":rx.0,"rx_lon":rx.1,"range":range}) });
+            st.fail(Failure { sig, msg: format!("{msg}; frames {:?}", frames.iter().map(|f| bits::hex(f)).collect::<Vec<_>>()), replay: json!({"kind":"history","frames":frames.iter().map(|f| bits::hex(f)).collect::<Vec<_>>(),"rx_lat":rx.0,"rx_lon":rx.1,"range":range,"waits_s":waits}) });
         }
     });
     st.notes.insert("worker".into(), json!("harness/vworker: libraries built with default-features = false, features = [\"alloc\"]"));
